@@ -89,10 +89,21 @@ def monitor(lines, impl, which):
     counts = {}         # proc -> dict(s, r) since last start
     nmc = traffic = 0
     seq = 0
+    # C06, handler clocks: which (process, message type) pairs carry a clock reading (`K:` actions; not also used by `R:`)
+    ktips, rtips, skew = set(), set(), {}
+    for l in lines:
+        if l.startswith("rule "):
+            ws = l.split()
+            for a in ws[5:]:
+                if a.startswith("K:"): ktips.add((ws[1], a[2:]))
+                if a.startswith("R:"): rtips.add((ws[1], a[2:]))
+    ktips -= rtips
     for op, ret, t, entries in Walk(lines, impl).steps():
         w = op.split()
         if w[0] == "net":
             apply_net(ns, w)
+        if w[0] == "skew" and len(w) == 3:
+            skew[w[1]] = val(w[2])
         if ret == "obs":
             if which == "C07":
                 # the timer contract judged on each process's event log: requested operations and firings in order
@@ -140,6 +151,14 @@ def monitor(lines, impl, which):
                 if et < last_time:
                     return f"{kind} handled at time {et} after an event at time {last_time}: time went backwards"
                 last_time = max(last_time, et)
+            if kind == "LS" and which == "C06" and len(f) == 4 and re.fullmatch(r"=?[0-9a-f]{16}", f[3]):
+                f = f[:3] + [f[3].lstrip("=")]
+                node, proc = f[1].split("-")[0], f[1].split("-")[1]
+                if (proc, f[2]) in ktips:
+                    want = et + skew.get(node, 0.0)
+                    if hexf(f[3]) != want:
+                        return (f"a handler of {proc} on {node} read ctx.time() = {hexf(f[3])} at global time {et}; the node's clock skew is "
+                                f"{skew.get(node, 0.0)}, so it must read {want}")
             if kind == "PS":
                 counts[f[2]] = {"s": 0, "r": 0}
             elif kind == "MS":
